@@ -65,6 +65,8 @@ func genCliGeneral(v6 bool) *rapid.Generator[cliScenario] {
 				c.CancelAt = evTick(c.Start + rapid.IntRange(1, sc.T*5).Draw(t, "cancel"))
 			case 1:
 				c.Deadline = dlTick(c.Start+rapid.IntRange(1, sc.T*5).Draw(t, "deadline")) - c.Start
+			case 2:
+				c.Ctx = rapid.IntRange(1, 3).Draw(t, "ctx")
 			}
 			sc.Calls = append(sc.Calls, c)
 			if e := c.Start + sc.T*8; e > horizon {
@@ -100,7 +102,7 @@ func genCliGeneral(v6 bool) *rapid.Generator[cliScenario] {
 			sc.DoubleClose = rapid.Bool().Draw(t, "double")
 		}
 		sc.CloseFails = rapid.IntRange(0, 3).Draw(t, "closefails") == 0
-		sc.LogMode = rapid.SampledFrom(cliLogModes).Draw(t, "logmode")
+		sc.LogMode, sc.Knob = rapid.SampledFrom(cliLogModes).Draw(t, "logmode"), rapid.SampledFrom([]int{0, 0, 1}).Draw(t, "knob")
 		sc.Dest = rapid.SampledFrom([]int{0, 0, 1, 2, 3}).Draw(t, "dest")
 		return sc
 	})
@@ -147,7 +149,7 @@ func genCliBlocking(v6 bool) *rapid.Generator[cliScenario] {
 			sc.Calls = append(sc.Calls, c2)
 			sc.Dels = append(sc.Dels, cliDeliver{At: evTick(c2.Start + rapid.IntRange(1, sc.T-8).Draw(t, "resp2")), Xid: c2.Xid, Typ: c.Want, Serial: n + 1, Kind: dgGood})
 		}
-		sc.LogMode = rapid.SampledFrom(cliLogModes).Draw(t, "logmode")
+		sc.LogMode, sc.Knob = rapid.SampledFrom(cliLogModes).Draw(t, "logmode"), rapid.SampledFrom([]int{0, 0, 1}).Draw(t, "knob")
 		return sc
 	})
 }
@@ -174,7 +176,7 @@ func genCliBlockedAcross(v6 bool) *rapid.Generator[cliScenario] {
 		k := rapid.IntRange(1, 3).Draw(t, "deadlines")
 		c.ReleaseAt = evTick(max(at, sc.T*((1<<uint(k))-1)) + rapid.IntRange(1, sc.T-8).Draw(t, "past"))
 		sc.Calls = []cliCall{c}
-		sc.LogMode = rapid.SampledFrom(cliLogModes).Draw(t, "logmode")
+		sc.LogMode, sc.Knob = rapid.SampledFrom(cliLogModes).Draw(t, "logmode"), rapid.SampledFrom([]int{0, 0, 1}).Draw(t, "knob")
 		return sc
 	})
 }
@@ -304,7 +306,7 @@ func genCliStreams(v6 bool) *rapid.Generator[cliScenario] {
 		if rapid.Bool().Draw(t, "reuse") {
 			sc.Calls = append(sc.Calls, cliCall{Start: callStart(1, end+16), Xid: 1, Matcher: 0, CancelAt: -1, Deadline: -1})
 		}
-		sc.LogMode = rapid.SampledFrom(cliLogModes).Draw(t, "logmode")
+		sc.LogMode, sc.Knob = rapid.SampledFrom(cliLogModes).Draw(t, "logmode"), rapid.SampledFrom([]int{0, 0, 1}).Draw(t, "knob")
 		return sc
 	})
 }
@@ -436,6 +438,20 @@ func TestC12_Grid(t *testing.T) {
 			}
 		}
 	}
+	// contexts that can never end (Background, TODO, a value context): unlimited tries go on until Close, limited ones
+	// follow their schedule
+	for _, v6 := range []bool{false, true} {
+		for _, tries := range []int{-1, 1, 3} {
+			for ctx := 1; ctx <= 3; ctx++ {
+				sc := c12Scenario(v6, 1e6/16, tries, 1, -1, 0)
+				sc.Calls[0].Ctx = ctx
+				c12.one(t, sc)
+				sc = c12Scenario(v6, 1e6/16, tries, 2, max(0, tries-1), 1)
+				sc.Calls[0].Ctx = ctx
+				c12.one(t, sc)
+			}
+		}
+	}
 	// a context deadline inside the schedule (at every try k, early, mid-try and just before the try's end): the
 	// transmissions up to that instant are the scheduled ones, all of them, and the call ends at the deadline
 	for _, v6 := range []bool{false, true} {
@@ -492,7 +508,7 @@ func genC12Sequence(v6 bool) *rapid.Generator[cliScenario] {
 				after = c.Start + sched + 16
 			}
 		}
-		sc.LogMode = rapid.SampledFrom(cliLogModes).Draw(t, "logmode")
+		sc.LogMode, sc.Knob = rapid.SampledFrom(cliLogModes).Draw(t, "logmode"), rapid.SampledFrom([]int{0, 0, 1}).Draw(t, "knob")
 		return sc
 	})
 }
@@ -519,8 +535,10 @@ func TestC12_Rapid(t *testing.T) {
 			sc.Calls[0].CancelAt = evTick(rapid.IntRange(1, 16*40).Draw(rt, "cancelat"))
 		} else if rapid.IntRange(0, 3).Draw(rt, "with-deadline") == 0 {
 			sc.Calls[0].Deadline = dlTick(rapid.IntRange(1, 16*40).Draw(rt, "deadline"))
+		} else {
+			sc.Calls[0].Ctx = rapid.SampledFrom([]int{0, 0, 1, 2, 3}).Draw(rt, "ctx")
 		}
-		sc.LogMode = rapid.SampledFrom(cliLogModes).Draw(rt, "logmode")
+		sc.LogMode, sc.Knob = rapid.SampledFrom(cliLogModes).Draw(rt, "logmode"), rapid.SampledFrom([]int{0, 0, 1}).Draw(rt, "knob")
 		return sc
 	}))
 }
